@@ -3,11 +3,21 @@
 package main
 
 import (
+	"context"
 	"encoding/json"
 	"fmt"
 	"io"
 	"math/rand"
+	"os"
+	"path/filepath"
 	"sort"
+
+	"github.com/go-kit/log"
+	"github.com/oklog/ulid/v2"
+	"github.com/prometheus/prometheus/tsdb"
+	"github.com/prometheus/prometheus/tsdb/index"
+	"github.com/thanos-io/thanos/pkg/block"
+	"github.com/thanos-io/thanos/pkg/logutil"
 
 	"github.com/prometheus/prometheus/model/labels"
 	"github.com/prometheus/prometheus/storage"
@@ -38,6 +48,7 @@ type seriesIn struct {
 }
 
 type input struct {
+	Kind   string     `json:"kind,omitempty"` // "" = DeletionModifier.Modify on in-memory series; "block" = Compactor.WriteSeries on a real block
 	Reqs   []reqIn    `json:"reqs"`
 	Series []seriesIn `json:"series"`
 }
